@@ -207,9 +207,11 @@ fn generate_item_parser_call(
                 }
                 quote! { {
                     let arrayitems = #item_ident.get_array()?;
+                    if arrayitems.len() < #dim {
+                        return Err("structural mismatch: array has fewer elements than expected");
+                    }
                     [ #(#arrayelements),* ]
                 }}
-                //quote! {foo}
             }
         }
         BaseType::EnumRef | BaseType::StructRef => {
@@ -243,6 +245,9 @@ fn generate_item_location(item_ident: &TokenStream, basetype: &BaseType) -> Toke
                 }
                 quote! { {
                     let arrayitems = #item_ident.get_array()?;
+                    if arrayitems.len() < #dim {
+                        return Err("structural mismatch: array has fewer elements than expected");
+                    }
                     [ #(#arraylocations),* ]
                 }}
             }
